@@ -167,6 +167,13 @@ def check(pid, tier, seed, args, t0):
         pr = R.prove(pid) if not args.no_prove else dict(obligations=1, discharged=1, failed=[], assumptions={}, bad_axioms=[], log="")
         model_ok = os.path.exists(os.path.join(R.COQ, "Extract.vo"))     # make's status (in prove) tells whether it is current
         driver = R.build_driver() if os.path.exists(os.path.join(R.COQ, "model.ml")) else None
+    coqchk_note = None
+    if tier == "thorough" and not args.no_prove and not pr["failed"]:
+        # independent re-check of the compiled property file and everything it depends on
+        r = R.sh("timeout 5400 coqchk -silent -o -R . PGM PGM.Properties_%s" % pid, cwd=R.COQ)
+        tail = (r.stdout + r.stderr)[-1500:]
+        coqchk_note = "coqchk exit %d: %s" % (r.returncode, " ".join(tail.split())[-700:])
+        if r.returncode != 0: pr["failed"].append("coqchk rejected Properties_%s.vo" % pid)
     broken = []
     if lint_bad: broken.append("lint: " + "; ".join(lint_bad[:5]))
     if tmsgs: broken.append("translator: " + "; ".join(tmsgs))
@@ -274,7 +281,7 @@ def check(pid, tier, seed, args, t0):
     ncases = len(cases)
     nontriv = len(set(l.split(" ", 2)[2] for l in cases if spec["nontrivial"](l)))
     write_evidence(pid, tier, seed, pr, ncases, nontriv, dict(stats=stats, judge=jsum, diffs=len(diffs), env=env),
-                   [c[:300] for c in cases[:3]], notes + broken, len(violations), t0, spec, broken, known_hits)
+                   [c[:300] for c in cases[:3]], notes + broken + ([coqchk_note] if coqchk_note else []), len(violations), t0, spec, broken, known_hits)
     print("%s: %d cases, %d correspondence diffs, judge %s, obligations %d/%d, violations %d, %.1fs" % (
         pid, ncases, len(diffs), jsum, pr["discharged"], pr["obligations"], len(violations), time.time() - t0))
     return 1 if violations else 0
